@@ -110,7 +110,9 @@ fn second_run(case: &RestartCase, stored: &str, via_solver: bool) -> crate::kern
         // two seeds: every supplied solution must reach the population, also when the budget for building initial solutions
         // is already used up (the configured initial quota may be zero). Only when the configuration admits two initial
         // solutions (the reader keeps `initial.alternatives.maxSize` of the supplied ones).
-        let admits_two = case.second_config["evolution"]["initial"]["alternatives"]["maxSize"].as_u64().is_some_and(|n| n >= 2);
+        // (and only without user relations: a solution which serves nothing is not consistent with a sequence / strict relation)
+        let admits_two = case.second_config["evolution"]["initial"]["alternatives"]["maxSize"].as_u64().is_some_and(|n| n >= 2)
+            && case.first.problem["plan"].get("relations").is_none();
         let mut seeds = vec![];
         if case.two_seeds && admits_two {
             let poor = sys::monitor(|| {
@@ -269,7 +271,7 @@ fn record(case: &RestartCase, seed: u64) -> CaseRecord {
         rec.taint = true;
     }
     rec.count("faults.second_run_clock_stalls_fired", out2.stalls_fired);
-    rec.count("restart.second_runs_with_two_seeds", (case.two_seeds && case.second_config["evolution"]["initial"]["alternatives"]["maxSize"].as_u64().is_some_and(|n| n >= 2)) as u64);
+    rec.count("restart.second_runs_with_two_seeds", (case.two_seeds && case.first.problem["plan"].get("relations").is_none() && case.second_config["evolution"]["initial"]["alternatives"]["maxSize"].as_u64().is_some_and(|n| n >= 2)) as u64);
     rec.count(&format!("scheduler.second.strategy.{}", case.second_spec.strategy.name()), 1);
     let mut push = |rec: &mut CaseRecord, rule: &str, sig: String, msg: String| rec.issues.push(IssueRec { prop: "C08".into(), rule: rule.into(), sig, msg });
     let population = case.second_config["evolution"]["population"]["type"].as_str().unwrap_or("default").to_string();
